@@ -37,7 +37,7 @@ PY
   [ -z "$PKGS" ] && { echo "no affected packages"; rm -f $OUT; exit 0; }
   echo "affected packages: $(echo $PKGS | wc -w)"
 fi
-(cd "$REPO" && go test -mod=mod -json -vet=off -count=1 -timeout 25m $PKGS > "$OUT" 2>/dev/null)
+(cd "$REPO" && go test -mod=mod -json -vet=off -count=1 -timeout ${BASELINE_TIMEOUT:-25m} $PKGS > "$OUT" 2>/dev/null)
 python3 - "$OUT" "$PATCH" "$(cd $REPO && pwd -P)" <<'PY'
 import json,sys
 base=json.load(open('/root/.vp/BASELINE.json'))
